@@ -22,6 +22,8 @@ pub struct Flags {
     pub try_op: bool,
     pub matches: bool,
     pub funcs: bool,
+    /// allow break/continue inside a block that is (part of) an operand
+    pub brk_in_operand: bool,
     /// statement budget of the main block
     pub size: u8,
     pub depth: u8,
@@ -43,6 +45,7 @@ impl Flags {
             try_op: true,
             matches: true,
             funcs: true,
+            brk_in_operand: false,
             size,
             depth,
         }
@@ -124,6 +127,8 @@ pub struct G<'a> {
     nodes: usize,
     labels: std::collections::BTreeSet<String>,
     cur_params: Vec<T>,
+    operand_depth: usize,
+    loop_base: usize,
 }
 
 const STRS: [&str; 8] = ["", "a", "b", "ab", "xyz", "hello", "é", "A b"];
@@ -291,6 +296,13 @@ impl<'a> G<'a> {
     }
 
     pub fn expr(&mut self, ty: &T, d: usize) -> E {
+        self.operand_depth += 1;
+        let e = self.expr_inner(ty, d);
+        self.operand_depth -= 1;
+        e
+    }
+
+    fn expr_inner(&mut self, ty: &T, d: usize) -> E {
         self.nodes += 1;
         if d == 0 || self.nodes > 400 {
             let vs = self.vars_of(ty);
@@ -785,7 +797,7 @@ impl<'a> G<'a> {
             if loops_ok { 2 } else { 0 },
             if loops_ok { 2 } else { 0 },
             if loops_ok { 1 } else { 0 },
-            if in_loop { 3 } else { 0 },
+            if in_loop && (self.fl.brk_in_operand || self.operand_depth == self.loop_base) { 3 } else { 0 },
             if arrs.is_empty() || self.no_len_mut > 0 || self.lambda_depth > 0 { 0 } else { 3 },
             if arrs.is_empty() || !self.fl.errors { 0 } else { 2 },
             if self.funcs.is_empty() { 0 } else { 2 },
@@ -826,7 +838,9 @@ impl<'a> G<'a> {
                 let n = 1 + self.t.n(4) as i64;
                 self.declare(&counter, T::Int, false);
                 self.loop_depth += 1;
+                let saved_base = std::mem::replace(&mut self.loop_base, self.operand_depth);
                 let body = self.block(None, d1, 3);
+                self.loop_base = saved_base;
                 self.loop_depth -= 1;
                 S::While { counter, n, body }
             }
@@ -836,7 +850,9 @@ impl<'a> G<'a> {
                 let var = self.loop_var();
                 self.scopes.push(vec![VarInfo { name: var.clone(), ty: T::Int, mutable: false, captured: false }]);
                 self.loop_depth += 1;
+                let saved_base = std::mem::replace(&mut self.loop_base, self.operand_depth);
                 let body = self.block(None, d1, 3);
+                self.loop_base = saved_base;
                 self.loop_depth -= 1;
                 self.scopes.pop();
                 S::ForInt { var, n, body }
@@ -863,7 +879,9 @@ impl<'a> G<'a> {
                 if over_var {
                     self.no_len_mut += 1;
                 }
+                let saved_base = std::mem::replace(&mut self.loop_base, self.operand_depth);
                 let body = self.block(None, d1, 3);
+                self.loop_base = saved_base;
                 if over_var {
                     self.no_len_mut -= 1;
                 }
@@ -878,7 +896,9 @@ impl<'a> G<'a> {
                 let var = self.loop_var();
                 self.scopes.push(vec![VarInfo { name: var.clone(), ty: T::Int, mutable: false, captured: false }]);
                 self.loop_depth += 1;
+                let saved_base = std::mem::replace(&mut self.loop_base, self.operand_depth);
                 let body = self.block(None, d1, 3);
+                self.loop_base = saved_base;
                 self.loop_depth -= 1;
                 self.scopes.pop();
                 S::ForRange { var, lo, hi, body }
@@ -888,6 +908,9 @@ impl<'a> G<'a> {
                 let c = self.expr(&T::Bool, d1);
                 let brk = self.t.n(2) == 0;
                 self.label(if brk { "break" } else { "continue" });
+                if self.operand_depth != self.loop_base {
+                    self.label("break-continue-in-operand");
+                }
                 S::If(c, Block { stmts: vec![if brk { S::Break } else { S::Continue }], tail: None }, None)
             }
             10 => {
@@ -1081,6 +1104,8 @@ pub fn generate(tape: &[u16], fl: &Flags) -> Prog {
         nodes: 0,
         labels: Default::default(),
         cur_params: vec![],
+        operand_depth: 0,
+        loop_base: 0,
     };
     g.gen_types();
     g.gen_funcs();
